@@ -247,6 +247,31 @@ func evalC08(c *Ctx, cs *Case) {
 			addSubset(m, t%2 == 0, r.Intn(3))
 		}
 	}
+	// an inner node of the tree exists on disk as a regular file (as after a Mkdir of another
+	// tree with a matching extension): its descendants cannot exist
+	{
+		var inner []string
+		for _, p := range paths {
+			if !leaf[p] {
+				inner = append(inner, p)
+			}
+		}
+		if cs.Kind != "exhaustive" && len(inner) > 1 {
+			inner = []string{inner[r.Intn(len(inner))]}
+		}
+		for _, x := range inner {
+			st := c08State{present: map[string]bool{}, isFile: map[string]bool{x: true}}
+			for _, p := range paths {
+				if !strings.HasPrefix(p, x+"/") {
+					st.present[p] = true
+				}
+			}
+			if r.Chance(1, 2) {
+				st.extras = append(st.extras, "zz_beside_roots")
+			}
+			states = append(states, st)
+		}
+	}
 	for si := range states {
 		c08State1(c, cs, f, merged, doc, fkey, &states[si], si, "subset")
 	}
